@@ -131,6 +131,17 @@ def _isnum(x):
     return isinstance(x, (bool, int, float, complex, np.generic)) and not isinstance(x, (str, bytes, np.str_, np.bytes_))
 
 
+def _eq(ctx, X, Y, label):
+    """equality obligation: symbolic content -> polynomial / integer identity for all values (prove_eq); purely concrete
+    content (also everything in the concrete replays) -> exact equality, as an HDF5 round trip must give"""
+    X = X if isinstance(X, np.ndarray) else np.asarray(X, dtype=object if ctx.symbolic else None)
+    Y = Y if isinstance(Y, np.ndarray) else np.asarray(Y, dtype=object if ctx.symbolic else None)
+    if ctx.symbolic and (any(_is_sym(v) for v in X.reshape(-1)) or any(_is_sym(v) for v in Y.reshape(-1))):
+        return ctx.prove_eq(X, Y, label)
+    same = X.shape == Y.shape and bool(np.all((X == Y) | ((X != X) & (Y != Y))))
+    return ctx.prove(same, label)
+
+
 class _Cmp:
     """observational + structural comparison of an object graph with its loaded twin"""
     # private lazily evaluated caches of Lattice (reset to None by the setters, refilled on demand); what they cache is
@@ -162,7 +173,7 @@ class _Cmp:
         ctx = self.ctx
         N = Bd.npc()
         if _is_sym(a) or _is_sym(b):
-            return ctx.prove_eq(a, b, f'equal: {w}')
+            return _eq(ctx, a, b, f'equal: {w}')
         if a is None or b is None or isinstance(a, (str, bytes)):
             return ctx.prove(type(a) is type(b) and a == b, f'equal: {w}')
         if _isnum(a):
@@ -170,7 +181,7 @@ class _Cmp:
             if ok and self.scalar_types and type(a) in (bool, int, float, complex) and w.startswith('py'):
                 ok = type(a) is type(b)
             ctx.prove(ok, f'type: {w}')
-            return ok and ctx.prove_eq(a, b, f'equal: {w}')
+            return ok and _eq(ctx, a, b, f'equal: {w}')
         if isinstance(a, np.dtype) or isinstance(a, (type, type(len), type(_isnum))):
             return ctx.prove(a == b if isinstance(a, np.dtype) else a is b, f'equal: {w}')
         if isinstance(a, range):
@@ -191,7 +202,7 @@ class _Cmp:
                              f'shape/dtype: {w}'):
                 return False
             if a.dtype.kind in 'OifcbuO' and self._num_kind(a):
-                return ctx.prove_eq(a, b, f'equal: {w}')
+                return _eq(ctx, a, b, f'equal: {w}')
             return ctx.prove(bool(np.all(a == b)), f'equal: {w}')
         if isinstance(a, list):
             if not ctx.prove(len(a) == len(b), f'len: {w}'):
@@ -226,7 +237,7 @@ class _Cmp:
             if k in db:
                 self.same(da[k], db[k], f'{w}.{k}')
         if isinstance(a, N.Array):
-            ctx.prove_eq(b.to_ndarray(), a.to_ndarray(), f'dense: {w}')
+            _eq(ctx, b.to_ndarray(), a.to_ndarray(), f'dense: {w}')
             ctx.prove(b.get_leg_labels() == a.get_leg_labels(), f'labels: {w}')
         ts = getattr(b, 'test_sanity', None)
         if ts is not None:
@@ -249,11 +260,11 @@ class _Cmp:
         if int(a.ind_len) == int(b.ind_len) and not (self.flat and isinstance(a, N.LegPipe)):
             # (the index order of a pipe is derived from the block structure of its legs, which 'flat' does not keep:
             #  for pipes in that format pipe_case checks the fusion rule and bijectivity of the loaded pipe instead)
-            ctx.prove_eq(b.to_qflat(), a.to_qflat(), f'charges per index: {w}')
+            _eq(ctx, b.to_qflat(), a.to_qflat(), f'charges per index: {w}')
         if not self.flat:
             ctx.prove(int(a.block_number) == int(b.block_number) and np.array_equal(a.slices, b.slices), f'blocks: {w}')
             if int(a.block_number) == int(b.block_number):
-                ctx.prove_eq(b.charges, a.charges, f'block charges: {w}')
+                _eq(ctx, b.charges, a.charges, f'block charges: {w}')
             ctx.prove(bool(a.sorted) == bool(b.sorted) and bool(a.bunched) == bool(b.bunched), f'flags kept: {w}')
         if b.sorted:
             ctx.prove(Bd.lex_nondecreasing(ctx, b.charges), f'sorted flag truthful: {w}')
@@ -291,7 +302,7 @@ def chargeinfo_case(ctx, mods, names):
     ch2 = check_roundtrip(ctx, ch, what='chinfo')
     ctx.prove(ch2 == ch and list(ch2.names) == list(ch.names), 'ChargeInfo equal (own __eq__) and names kept')
     q = ctx.int_array('q', (2, len(mods)))
-    ctx.prove_eq(ch2.make_valid(q.copy()), ch.make_valid(q.copy()), 'loaded ChargeInfo.make_valid agrees for all charges')
+    _eq(ctx, ch2.make_valid(q.copy()), ch.make_valid(q.copy()), 'loaded ChargeInfo.make_valid agrees for all charges')
     for cp in (copy.copy(ch), copy.deepcopy(ch)):
         _Cmp(ctx).same(ch, cp, 'copy')
 
@@ -307,7 +318,7 @@ def dipolar_case(ctx, via):
     ctx.prove(ch2 == ch and type(ch2) is DipolarChargeInfo, 'DipolarChargeInfo equal (own __eq__)')
     q = ctx.int_array('q', (2, 3))
     dx = ctx.int('dx')
-    ctx.prove_eq(ch2.shift_charges_horizontal(q.copy(), dx), ch.shift_charges_horizontal(q.copy(), dx),
+    _eq(ctx, ch2.shift_charges_horizontal(q.copy(), dx), ch.shift_charges_horizontal(q.copy(), dx),
                  'loaded DipolarChargeInfo shifts charges identically')
 
 
@@ -367,9 +378,9 @@ def array_case(ctx, sizes, mods, qconjs, fmt, cplx=False, subset='all', pipe=Fal
     if fmt == 'copy':
         for cp in (copy.copy(A), copy.deepcopy(A)):
             cp.test_sanity()
-            ctx.prove_eq(cp.to_ndarray(), A.to_ndarray(), 'copy: dense')
+            _eq(ctx, cp.to_ndarray(), A.to_ndarray(), 'copy: dense')
             ctx.prove(cp.get_leg_labels() == A.get_leg_labels(), 'copy: labels')
-            ctx.prove_eq(cp.qtotal, A.qtotal, 'copy: qtotal')
+            _eq(ctx, cp.qtotal, A.qtotal, 'copy: qtotal')
         dc = copy.deepcopy(A)
         ctx.prove(all(x is not y for x, y in zip(dc._data, A._data)), 'deepcopy owns its blocks')
         return
@@ -393,7 +404,7 @@ def containers_case(ctx, which):
     iarr = ctx.int_array('n', (2, ), -5, 5)
     if which == 'scalars':
         data = {'none': None, 'int': 3, 'float': 2.5, 'complex': 1.5 - 2j, 'str': 'five', 'bool': True, 'np': [np.int64(1), np.float64(3.0),
-                np.complex128(2j), np.int32(4), np.float32(0.5), np.bool_(False)], 'sym': [x, z, x * z], 'big': 2**70, 'neg': -2**63,
+                np.complex128(2j), np.int32(4), np.float32(0.5), np.bool_(False)], 'sym': [x, z, x * z, k], 'big': 2**70, 'neg': -2**63,
                 'bytes': b'raw', 'empty_str': '', 'unicode': 'hä ☃', 'range': range(2, 8, 3), 'range0': range(0)}
     elif which == 'arrays':
         data = {'sym': arr, 'isym': iarr, 'f': np.array([6., 66.]), 'i': np.arange(6).reshape(2, 3), 'empty': np.array([]), 'zero_d': np.zeros([]),
@@ -419,7 +430,6 @@ def containers_case(ctx, which):
     elif which.startswith(('reduce:', 'global:')):
         # objects without explicit HDF5 format: Hdf5Saver falls back to the pickle protocol (__reduce__)
         import collections
-        import fractions
         kind = which.split(':')[1]
         if kind == 'OrderedDict':
             data = {'o': collections.OrderedDict([('b', 1), ('a', x), (3, [x])])}
@@ -447,7 +457,6 @@ def containers_case(ctx, which):
         H.Hdf5Saver(f).save(data)
         out = H.Hdf5Loader(reopen()).load()
     if which == 'exportable':
-        ctx.prove(isinstance(out.pop('ignored', None), (H.Hdf5Ignored, type(None))) or True, 'Hdf5Ignored is not saved')
         data.pop('ignored')
         ctx.prove('ignored' not in out, 'Hdf5Ignored objects are not saved')
         ctx.prove(out['e'].me is out['e'] and out['e2'] is out['e'], 'self-referential exportable survives')
@@ -482,9 +491,9 @@ def loader_options_case(ctx):
         g = reopen()
         out = H.load_from_hdf5(g, exclude=['/big'])
         ctx.prove(isinstance(out['big'], H.Hdf5Ignored) and out['small'] is out['also'], 'exclude replaces the object, sharing kept')
-        ctx.prove_eq(out['small'][0], x, 'partial: value')
+        _eq(ctx, out['small'][0], x, 'partial: value')
         part = H.load_from_hdf5(g, '/small')
-        ctx.prove_eq(part[0], x, 'load with path')
+        _eq(ctx, part[0], x, 'load with path')
         sub = H.Hdf5Loader(g)
         a, b = sub.load('/small'), sub.load('/also')
         ctx.prove(a is b, 'one loader: hard-linked groups load to one object')
@@ -536,7 +545,7 @@ def site_case(ctx, kind, fmt='blocks', cplx=False):
     ctx.prove(out['again'] is s2, 'site saved twice is shared')
     ctx.prove(s2.opnames == s.opnames and s2.state_labels == s.state_labels, 'site: opnames and state labels')
     for name in sorted(s.opnames):
-        ctx.prove_eq(s2.get_op(name).to_ndarray(), s.get_op(name).to_ndarray(), f'site op {name}')
+        _eq(ctx, s2.get_op(name).to_ndarray(), s.get_op(name).to_ndarray(), f'site op {name}')
     ctx.prove(all(s2.get_op(n).legs[0] is s2.leg for n in s2.opnames), 'site operators share the site leg after loading')
     cp = copy.deepcopy(s)
     _Cmp(ctx).same(s, cp, 'deepcopy(site)')
@@ -572,13 +581,43 @@ def mps_case(ctx, kind, fmt='blocks', cplx=False):
     psi2 = check_roundtrip(ctx, psi, fmt, what='psi')
     ctx.prove(psi2.L == psi.L and psi2.bc == psi.bc and list(psi2.form) == list(psi.form) and psi2.finite == psi.finite, 'MPS: L, bc, form')
     for i in range(psi.L):
-        ctx.prove_eq(psi2.get_B(i, None).to_ndarray(), psi.get_B(i, None).to_ndarray(), 'MPS: tensors')
+        _eq(ctx, psi2.get_B(i, None).to_ndarray(), psi.get_B(i, None).to_ndarray(), 'MPS: tensors')
         ctx.prove(psi2.get_B(i, None).get_leg_labels() == psi.get_B(i, None).get_leg_labels(), 'MPS: labels')
-    ctx.prove_eq(psi2.norm, psi.norm, 'MPS: norm')
+    _eq(ctx, psi2.norm, psi.norm, 'MPS: norm')
     ctx.prove(all(b.legs[b.get_leg_index('p')] is s.leg for b, s in zip(psi2._B, psi2.sites)) or
               not all(b.legs[b.get_leg_index('p')] is s.leg for b, s in zip(psi._B, psi.sites)), 'MPS: physical legs shared with sites as before')
     cp = copy.deepcopy(psi)
     _Cmp(ctx).same(psi, cp, 'deepcopy(psi)')
+
+
+def umps_case(ctx, kind, fmt='blocks', cplx=False):
+    """UniformMPS / MomentumMPS (beta classes with their own save_hdf5 / from_hdf5)"""
+    import warnings
+    from tenpy.networks.mps import MPS
+    from tenpy.networks.uniform_mps import UniformMPS
+    from tenpy.networks.momentum_mps import MomentumMPS
+    N = Bd.npc()
+    with warnings.catch_warnings():
+        warnings.simplefilter('ignore')
+        psi = MPS.from_singlets(_site('spin_half_Sz'), 2, [(0, 1)], bc='infinite', unit_cell_width=2)
+        u = UniformMPS.from_MPS(psi)
+        # (the uMPS tensors stay concrete: UniformMPS.test_sanity -> test_validity evaluates norms numerically and
+        #  only accepts tensors that fulfil the uMPS gauge conditions; symbolic: the excitation tensors X and the momentum)
+        obj = u
+        if kind == 'MomentumMPS':
+            Xs = [_symbolize(ctx, t, f'X{i}', cplx=cplx) for i, t in enumerate(u._AC)]
+            obj = MomentumMPS(Xs, u, ctx.real('p'), n_sites=1)
+        ctx.note('stored_blocks', sum(t.stored_blocks for t in u._AC))
+        out = check_roundtrip(ctx, obj, fmt, what=kind)
+    ctx.prove(type(out) is type(obj), f'{kind}: type')
+    u2 = out if kind == 'UniformMPS' else out.uMPS_GS
+    for i in range(u.L):
+        for name in ('_AL', '_AR', '_AC', '_C'):
+            _eq(ctx, getattr(u2, name)[i].to_ndarray(), getattr(u, name)[i].to_ndarray(), f'{kind}: tensors {name}')
+    if kind == 'MomentumMPS':
+        _eq(ctx, out.p, obj.p, 'MomentumMPS: momentum')
+        for a, b in zip(out._X, obj._X):
+            _eq(ctx, a.to_ndarray(), b.to_ndarray(), 'MomentumMPS: excitation tensors')
 
 
 def mpo_case(ctx, kind, fmt='blocks', cplx=False):
@@ -600,7 +639,7 @@ def mpo_case(ctx, kind, fmt='blocks', cplx=False):
     ctx.prove(H2.L == H.L and H2.bc == H.bc and list(H2.IdL) == list(H.IdL) and list(H2.IdR) == list(H.IdR) and
               H2.max_range == H.max_range and bool(H2.explicit_plus_hc) == bool(H.explicit_plus_hc), 'MPO: L, bc, IdL, IdR, max_range, plus_hc')
     for i in range(H.L):
-        ctx.prove_eq(H2.get_W(i).to_ndarray(), H.get_W(i).to_ndarray(), 'MPO: tensors')
+        _eq(ctx, H2.get_W(i).to_ndarray(), H.get_W(i).to_ndarray(), 'MPO: tensors')
 
 
 def terms_case(ctx, kind, cplx=False):
@@ -631,7 +670,7 @@ def terms_case(ctx, kind, cplx=False):
     if kind != 'TermList' and hasattr(t, 'to_TermList'):
         a, b = t.to_TermList(), t2.to_TermList()
         ctx.prove(a.terms == b.terms, 'terms: same term list after loading')
-        ctx.prove_eq(np.asarray(b.strength), np.asarray(a.strength), 'terms: same strengths after loading')
+        _eq(ctx, np.asarray(b.strength), np.asarray(a.strength), 'terms: same strengths after loading')
     _Cmp(ctx).same(t, copy.deepcopy(t), 'deepcopy(terms)')
 
 
@@ -641,7 +680,7 @@ def misc_case(ctx, kind):
         e = TruncationError(ctx.real('eps', nonneg=True), ctx.real('ov'))
         out = check_roundtrip(ctx, [e, e, e + e], what='err')
         ctx.prove(out[0] is out[1] and out[2] is not out[0], 'TruncationError sharing')
-        ctx.prove_eq([out[0].eps, out[0].ov, out[2].eps], [e.eps, e.ov, 2 * e.eps], 'TruncationError eps / ov')
+        _eq(ctx, [out[0].eps, out[0].ov, out[2].eps], [e.eps, e.ov, 2 * e.eps], 'TruncationError eps / ov')
         _Cmp(ctx).same(e, copy.deepcopy(e), 'deepcopy(err)')
     elif kind == 'Config':
         from tenpy.tools.params import Config
@@ -655,7 +694,7 @@ def misc_case(ctx, kind):
         c2 = out['c']
         ctx.prove(c2.name == c.name and set(c2.unused) == set(c.unused) and set(c2.keys()) == set(c.keys()), 'Config: name, unused, keys')
         ctx.prove(out['sub'] is c2.options['trunc_params'], 'Config: subconfig shared with parent after loading')
-        ctx.prove_eq(c2.options['dt'], x, 'Config: symbolic value')
+        _eq(ctx, c2.options['dt'], x, 'Config: symbolic value')
         _Cmp(ctx).same(c, copy.deepcopy(c), 'deepcopy(cfg)')
         e = Config({}, 'empty')
         check_roundtrip(ctx, e, what='empty_cfg')
@@ -754,13 +793,13 @@ def lattice_case(ctx, clsname, disorder=False, variant='both'):
               lat2.bc_MPS == lat.bc_MPS and np.array_equal(lat2.bc, lat.bc) and np.array_equal(lat2.bc_shift, lat.bc_shift)
               if lat.bc_shift is not None else lat2.bc_shift is None, 'lattice: order, boundary conditions')
     i = ctx.int('i', 0, lat.N_sites - 1)
-    ctx.prove_eq(np.asarray(lat2.mps2lat_idx(i)), np.asarray(lat.mps2lat_idx(i)), 'lattice: mps2lat_idx for every site')
+    _eq(ctx, np.asarray(lat2.mps2lat_idx(i)), np.asarray(lat.mps2lat_idx(i)), 'lattice: mps2lat_idx for every site')
     for j in range(lat.N_sites):
         li = lat.mps2lat_idx(j)
         ctx.prove(int(lat2.lat2mps_idx(li)) == int(lat.lat2mps_idx(li)) == j, 'lattice: lat2mps_idx inverts')
         if not disorder:  # position() adds the (symbolic) disorder into a float64 buffer; the disorder array itself is compared above
-            ctx.prove_eq(lat2.position(li), lat.position(li), 'lattice: positions')
-    ctx.prove_eq(np.asarray(lat2.reciprocal_basis), np.asarray(lat.reciprocal_basis), 'lattice: reciprocal_basis')
+            _eq(ctx, lat2.position(li), lat.position(li), 'lattice: positions')
+    _eq(ctx, np.asarray(lat2.reciprocal_basis), np.asarray(lat.reciprocal_basis), 'lattice: reciprocal_basis')
     ctx.prove([type(x) for x in lat2.mps_sites()] == [type(x) for x in lat.mps_sites()], 'lattice: mps_sites types')
     ctx.prove(set(lat2.pairs.keys()) == set(lat.pairs.keys()), 'lattice: pairs')
     for k in lat.pairs:
@@ -819,7 +858,7 @@ def model_case(ctx, kind, cplx=False):
     M2 = check_roundtrip(ctx, M, what='M')
     if H is not None:
         for i in range(H.L):
-            ctx.prove_eq(M2.H_MPO.get_W(i).to_ndarray(), H.get_W(i).to_ndarray(), 'model: H_MPO tensors')
+            _eq(ctx, M2.H_MPO.get_W(i).to_ndarray(), H.get_W(i).to_ndarray(), 'model: H_MPO tensors')
         ctx.prove(M2.H_MPO.sites[0] is M2.lat.unit_cell[0], 'model: MPO sites shared with lattice sites after loading')
     if hasattr(M, '_rng'):
         ctx.prove(M2.rng.random() == copy.deepcopy(M.rng).random(), 'model: random generator continues identically')
@@ -842,6 +881,8 @@ def _exercised():
     ex[P + 'networks.mps.MPS'] = 'MPS'
     ex[P + 'networks.purification_mps.PurificationMPS'] = 'MPS[purification'
     ex[P + 'networks.mpo.MPO'] = 'MPO'
+    ex[P + 'networks.uniform_mps.UniformMPS'] = 'UniformMPS'
+    ex[P + 'networks.momentum_mps.MomentumMPS'] = 'MomentumMPS'
     for k in ('TermList', 'OnsiteTerms', 'CouplingTerms', 'MultiCouplingTerms', 'ExponentiallyDecayingTerms'):
         ex[P + 'networks.terms.' + k] = f'terms[{k}'
     for cls, kind in (('SpinHalfSite', 'spin_half_Sz'), ('FermionSite', 'fermion'), ('BosonSite', 'boson'), ('SpinSite', 'spin1'),
@@ -867,7 +908,7 @@ def reflection_case(ctx, case_names):
         if hit:
             n_ex += 1
             ctx.note(f'exportable_exercised:{q}')
-        elif own in ex or any(_is_lattice(c) for _ in [0]) or own.endswith('Model') or own.endswith('Hdf5Exportable'):
+        elif own in ex or _is_lattice(c) or own.endswith('Model') or own.endswith('Hdf5Exportable'):
             ctx.note(f'exportable_not_instantiated(save_hdf5 of {own.rsplit(".", 1)[-1]} exercised through another class):{q}')
         else:
             ctx.note(f'exportable_NOT_exercised:{q}')
@@ -1016,6 +1057,8 @@ def CASES(tier, seed):
             if fmt == 'compact' and kind not in ('finite_singlets', 'segment'):
                 continue
             add(f'MPS[{kind},{fmt}]', 'mps_case', kind=kind, fmt=fmt, cplx=(kind == 'infinite_singlets' or th), **B)
+    for kind in ('UniformMPS', 'MomentumMPS'):
+        add(f'{kind}[blocks]', 'umps_case', kind=kind, fmt='blocks', cplx=(kind == 'MomentumMPS'), **B)
     for kind in ('tfi_finite', 'xxz_infinite', 'plus_hc'):
         for fmt in ('blocks', 'compact'):
             add(f'MPO[{kind},{fmt}]', 'mpo_case', kind=kind, fmt=fmt, cplx=(kind == 'plus_hc'), **B)
